@@ -232,6 +232,6 @@ func main() {
 		}
 		add(kind, genInput(r, i, g))
 	}
-	out.Extra["rule"] = "cases = model type (fixed family of 20 hand-written struct types plus, in 2 of 5 struct cases, a struct type GENERATED at run time with reflect.StructOf from the grammar key kind {uint,int64,uint32,renamed,composite} x 3..12 fields drawn from 42 Go types x their tag alternatives (column:, default:, autoCreateTime/autoUpdateTime variants, serializer json/gob/unixtime, embedded+embeddedPrefix); the family covers: integer widths, floats/bool/string/bytes/time and pointers, sql.Null*, custom Scanner/Valuer, json/gob/unixtime serializers, embedded structs with prefixes and renamed columns, literal and database-generated defaults, tracked times, composite / renamed / string keys) x RETURNING on/off x Create of struct | slice | slice of pointers | CreateInBatches(bs) | map | []map x 1..7 records of boundary values x preset / zero / mixed keys x pre-existing rows; distinct = distinct (type, mode, op, sizes, per-cell value class zero/nil/absent/value) shapes; non-trivial = at least two records created without error"
+	out.Extra["rule"] = "cases = model type (fixed family of 21 hand-written struct types plus, in 2 of 5 struct cases, a struct type GENERATED at run time with reflect.StructOf from the grammar key kind {uint,int64,uint32,renamed,composite} x 3..12 fields drawn from 42 Go types x their tag alternatives (column:, default:, autoCreateTime/autoUpdateTime variants, serializer json/gob/unixtime, embedded+embeddedPrefix); the family covers: integer widths, floats/bool/string/bytes/time and pointers, sql.Null*, custom Scanner/Valuer, json/gob/unixtime serializers, embedded structs with prefixes and renamed columns, literal and database-generated defaults, tracked times, composite / renamed / string keys) x RETURNING on/off x Create of struct | slice | slice of pointers | CreateInBatches(bs) | map | []map x 1..7 records of boundary values x preset / zero / mixed keys x pre-existing rows; distinct = distinct (type, mode, op, sizes, per-cell value class zero/nil/absent/value) shapes; non-trivial = at least two records created without error"
 	lib.Must(out.Flush())
 }
